@@ -488,3 +488,60 @@ PROPS["C15"] = dict(
     assumptions=["the error pattern leaves the first 4 octets (version/flags and data-field length) intact, as the property states"],
     unproved=[],
 )
+
+DAEMON_NOTE = ("Trusted: Lean kernel; the per-transaction models and the routing model lean/Cfdp/Model/Daemon.lean (forward_pdu, the Put branch of process_primitive, "
+               "cleanup_transactions at the level of the transaction table). Tie to the code: the daemon engine runs two real Daemons (entities 1 and 2, real NativeFileStore, "
+               "real task loops) on a paused current-thread tokio runtime joined by an in-memory link with a seeded fault plan; for every scenario the set of receive "
+               "transactions each daemon spawned is compared with the routing model folded over the headers of the PDUs delivered to it. Not modelled in Lean: tokio "
+               "scheduling / channels, and therefore the composition of the two transaction models over a lossy link - that part is checked on the real code only.")
+
+PROPS["C11"] = dict(
+    title="Concurrent transactions are isolated; stray PDUs cannot disturb the daemon",
+    module="Cfdp.Props.C11",
+    namespace="Cfdp.Daemon",
+    theorems=["C11_route_isolated", "C11_stray_discarded", "C11_spawn", "C11_ids_distinct"],
+    engines=["daemon"],
+    design="§6 C11",
+    technique="Lean 4 proofs over a model of the daemon's routing table + differential correspondence of the routing decisions + implementation-level oracles on two real daemons under a virtual clock",
+    level_text=("Kernel-checked over the routing model: whatever forward_pdu decides for a PDU, the only entry of the transaction table it can touch is the one keyed by the PDU's "
+                "(source entity, sequence number) - every other transaction keeps its entry and liveness and is named by no decision (C11_route_isolated); a ToSender PDU for a "
+                "transaction that does not exist, or any PDU whose transport entity is unknown, creates nothing and changes nothing (C11_stray_discarded); a ToReceiver PDU from "
+                "a known entity creates exactly its own entry (C11_spawn); the identifiers handed out for Put requests over any history of PDUs, Puts, task ends and clean-ups "
+                "are pairwise distinct (C11_ids_distinct; the counter wraps in the code after 2^width requests, the model counts in N). Each transaction's behaviour is a "
+                "function of its own state and the events routed to it (the Recv / Send models take no other input), so isolation of behaviour reduces to isolation of routing. "
+                "Checked on the real daemons (oracles, not theorems): 2-6 concurrent transfers in both directions and mixed modes each deliver their own file to their own "
+                "destination and report their own outcome (own_file), ids distinct (distinct_ids), daemons still running after stray / replayed PDUs (daemon_alive), a receive "
+                "transaction started by a stray ends by its own limits (daemon_bounded)."),
+    level_note=DAEMON_NOTE,
+    rule=("daemon engine: 15 (quick) / 150 (thorough) scenarios with 2-6 overlapping transactions (both directions, acknowledged / unacknowledged, files of 0 .. 6 segments with "
+          "distinct contents) plus 1-4 injected strays each: a Finished PDU for a sender that does not exist, a PDU naming entity 77 (no transport), a file-data or EOF PDU "
+          "with a fresh id that legitimately starts a receive transaction nobody continues. Non-trivial = a routing line with at least one delivered PDU."),
+    assumptions=["transaction tasks share nothing but the filestore and the channels to the daemon (Rust ownership: each task owns its transaction value)"],
+    unproved=["that the real tasks do not interfere through the shared filestore or channel back-pressure is an oracle (own_file, daemon_bounded), not a theorem"],
+)
+
+PROPS["C02"] = dict(
+    title="Acknowledged mode recovers from any bounded loss, duplication and reordering",
+    module="Cfdp.Props.C02",
+    namespace="Cfdp.Seg",
+    theorems=["C02_round_completes", "C02_gaps_answered", "Cfdp.Recv.C02_finishes_when_complete"],
+    engines=["daemon", "recv", "send"],
+    design="§6 C02",
+    technique="Lean 4 proofs of the recovery steps over the segment / receiver / sender models; the composition over a lossy link is checked on two real daemons under a virtual clock with bounded fault plans",
+    level_text=("Kernel-checked recovery steps: whatever the receiver holds, if the data PDUs that arrive afterwards - in any order, duplicated, cut into any pieces - together cover "
+                "the bytes of [0, size) it was missing, its segment list covers [0, size) (C02_round_completes), in particular for exact answers to the requests of one NAK "
+                "(C02_gaps_answered; the requests are exactly what is missing by C08_exact, the sender's answers carry exactly the requested bytes of the file by C07); in the "
+                "iteration in which the last missing piece arrives the receiver finalises, enters the Finished phase and queues the Finished PDU "
+                "(C02_finishes_when_complete); every unanswered EOF / Finished / NAK is retransmitted once per timer expiry up to the limit (C17_*_ack_expiry, "
+                "C17_send_eof_rearms, C08_queue_after_eof); duplicates and stragglers after completion change nothing (C04). PARTIAL: that these steps compose to completion "
+                "whenever fewer than `limit` consecutive transmissions of any PDU are lost is a liveness statement about two transaction models, the link and the scheduler; "
+                "it is not a theorem here. It is checked on the real code: the daemon engine runs acknowledged transfers between two real daemons with every kind of fault "
+                "plan below the limit and requires file identity, success at both users and termination of both transactions (oracles recovers, same_outcome, daemon_bounded)."),
+    level_note=DAEMON_NOTE + " " + RECV_SEND_NOTE,
+    rule=("daemon engine: 40 (quick) / 400 (thorough) acknowledged transfers, files of 0, 1, seg-1, seg, seg+1, 3 seg, 5 seg+7 octets, segment 32/64/128, limit 3/4, timeouts 1-3 s, "
+          "deferred / immediate NAK with delay 0 / 300 ms, closure, CRC on/off; fault plans of fewer than `limit` faults: drop / duplicate / delay (50-450 ms) placed either on PDU "
+          "indices of each direction or on the 1st, 2nd ... transmission of a PDU kind (metadata, data, EOF, ACK, NAK, Finished). recv / send engines as in C04/C07 for the "
+          "per-side steps. Non-trivial = a routing line with at least one delivered PDU / a PDU emitted."),
+    assumptions=["bounded faults: fewer than `limit` faults per transfer, delays below the timers (as the property states)"],
+    unproved=["the two-party liveness composition (see level text): checked dynamically, not proved"],
+)
